@@ -91,6 +91,11 @@ func printResult(res *HarnessResult) {
 		fmt.Printf("  VIOL: %s\n    inputs=%s\n    notes=%v\n", v.Msg, showInputs(v.Inputs), v.Notes)
 		_ = b
 	}
+	for k, v := range s.Funcs {
+		if strings.HasPrefix(k, "@decision") && v > 50 {
+			fmt.Printf("  %s x%d\n", k, v)
+		}
+	}
 	for k, v := range s.AssertsByMsg {
 		fmt.Printf("  assert %q x%d\n", k, v)
 	}
